@@ -30,6 +30,7 @@ func (ds *dataStore) save(fileName string) (err error) {
 	if err != nil {
 		return
 	}
+	simPersistStage("created", fileName)
 
 	// close f on exit and check for its returned error
 	defer func() {
@@ -51,6 +52,7 @@ func (ds *dataStore) save(fileName string) (err error) {
 	if err = enc.Encode(ph); err != nil {
 		return
 	}
+	simPersistStage("header", fileName)
 
 	// write the data
 	for _, item := range ds.data.buckets {
@@ -99,8 +101,10 @@ func (ds *dataStore) save(fileName string) (err error) {
 		if err != nil {
 			return
 		}
+		simPersistStage("key", fileName)
 	}
 
+	simPersistStage("before-close", fileName)
 	return
 }
 
